@@ -249,6 +249,62 @@ func checkC17(c *Ctx, r *Report) {
 			okStop = good && sawEmpty && sawComma
 		}
 	}
+	numberOrderRule(c, r)
 	r.Check(okStop, "R17c", c.FnName(pf), "top-level stop set", c.Pos(pf.Pos()), "stop set is \"\" exactly under IgnoreCommas, otherwise \",\"", "the top-level stop set is not chosen by Config.IgnoreCommas as documented")
 	_ = strings.TrimSpace
+}
+
+// numberOrderRule (R17d): an unquoted token is classified as a float only after both exact 64-bit
+// integer parses failed on the same text. Without the unsigned attempt integers above MaxInt64 come
+// back as rounded floats; without the signed one negative integers do.
+func numberOrderRule(c *Ctx, r *Report) {
+	r.Rule("R17d", "parsePrimitive tries strconv.ParseUint(text, 0, 64) and strconv.ParseInt(text, 0, 64) and falls through to strconv.ParseFloat only when both failed, all on the same text", 2)
+	fn := c.Method("parse", "flagParser", "parsePrimitive")
+	find := func(name string) []*ssa.Call {
+		var out []*ssa.Call
+		for _, ci := range CallsIn(fn, false) {
+			if f := ci.Common().StaticCallee(); f != nil && f.String() == name {
+				if call, ok := ci.(*ssa.Call); ok {
+					out = append(out, call)
+				}
+			}
+		}
+		return out
+	}
+	floats := find("strconv.ParseFloat")
+	if len(floats) != 1 {
+		r.add("R17d", c.FnName(fn), "float fallback", c.Pos(fn.Pos()), Undecided, true, fmt.Sprintf("expected one strconv.ParseFloat call, found %d", len(floats)))
+		return
+	}
+	fl := floats[0]
+	for _, name := range []string{"strconv.ParseUint", "strconv.ParseInt"} {
+		ok := false
+		why := "not called"
+		for _, call := range find(name) {
+			base, okB := ConstInt(call.Call.Args[1])
+			bits, okS := ConstInt(call.Call.Args[2])
+			if !sameSrc(call.Call.Args[0], fl.Call.Args[0]) {
+				why = "called on a different text than the float parse"
+				continue
+			}
+			if !okB || base != 0 || !okS || bits != 64 {
+				why = "not called with base 0 and 64 bits"
+				continue
+			}
+			// the float attempt is reached only on the failing edge of this parse
+			failed := false
+			for _, cd := range DomConds(fl.Block()) {
+				if isNilTestOfExtract(cd, call, 1, false) {
+					failed = true
+				}
+			}
+			if !failed {
+				why = "the float parse is not restricted to the case that this parse failed"
+				continue
+			}
+			ok = true
+		}
+		r.Check(ok, "R17d", c.FnName(fn), name+" before float", c.Pos(fl.Pos()), "tried on the same text with base 0 / 64 bits; the float parse is reached only when it failed",
+			"the exact integer parse "+name+" does not precede the float fallback ("+why+"): integers outside its sibling's range are read back as rounded floats")
+	}
 }
